@@ -308,7 +308,7 @@ Lemma type_head_nb t k : wf_type t = true -> simple_type t = true -> nb (pr_type
 Proof. destruct t as [t [a|]]; cbn [pr_type simple_type wf_type]; intros H S; [discriminate|]. now apply ty_head_nb. Qed.
 
 (* a word that begins with list / set / map but is longer is not a container type *)
-Lemma container_word_err (kw : list byte) (rest : parser Ty) s k :
+Lemma container_word_err {A} (kw : list byte) (rest : parser A) s k :
   forallb identch kw = true -> is_ident s = true -> hd_sat (fun b => negb (identch b)) k = true ->
   bytes_eq s kw = false ->
   (forall c r, identch c = true -> is_perr (rest (c :: r))) ->
